@@ -343,13 +343,31 @@ class NegateExpression(UnaryExpression):
 
     def __str__(self) -> str:
         inner: Union[Optional[MathExpression], str] = self.get_child()
-        binary_types = (
-            AddExpression,
-            SubtractExpression,
-        )
-        if isinstance(inner, binary_types):
+        if self._child_needs_parens(self.get_child()):
             inner = f"({inner})"
         return self.with_color("-{}".format(inner))
+
+    def _child_needs_parens(self, child: Optional[MathExpression]) -> bool:
+        """Return True if the text of the child must be grouped to keep the sign
+        applied to all of it when the output is parsed again."""
+        # -(a + b), -(a * b), -(a / b)
+        if isinstance(child, (AddExpression, SubtractExpression, DivideExpression)):
+            return True
+        if isinstance(child, MultiplyExpression) and not child.is_implicit():
+            return True
+        # -(-a), -(-2) and -(-2x) would otherwise print as "--a"
+        if isinstance(child, NegateExpression):
+            return True
+        if isinstance(child, MultiplyExpression):
+            child = child.left
+        if isinstance(child, ConstantExpression):
+            return child.value is not None and child.value < 0
+        # -(5!) and -(2^x): a sign directly before a number is read as part of the number
+        if isinstance(child, FactorialExpression):
+            return True
+        if isinstance(child, PowerExpression):
+            return isinstance(child.left, (ConstantExpression, FactorialExpression))
+        return False
 
     def to_math_ml_fragment(self) -> str:
         """Convert this single node into MathML."""
@@ -593,6 +611,13 @@ class MultiplyExpression(BinaryExpression):
         """Multiplication special cases constant*variable to output `4x` instead of
         `4 * x`"""
         left, right = self._check()
+        if self.is_implicit():
+            return self.with_color(f"{left}{right}")
+        return super().__str__()
+
+    def is_implicit(self) -> bool:
+        """Return True if this node prints without a multiplication symbol, e.g. `4x`"""
+        left, right = self._check()
         if isinstance(left, ConstantExpression):
             # const * var
             one = isinstance(right, VariableExpression)
@@ -600,9 +625,8 @@ class MultiplyExpression(BinaryExpression):
             two = isinstance(right, PowerExpression) and isinstance(
                 right.left, VariableExpression
             )
-            if one or two:
-                return self.with_color(f"{left}{right}")
-        return super().__str__()
+            return one or two
+        return False
 
     def to_math_ml_fragment(self) -> str:
         left, right = self._check()
